@@ -141,6 +141,38 @@ def listed_strings_from_source():
     return out
 
 
+def run_generator_recording(gen):
+    """execute a generator of the tree under test and read what it builds.  The Pauli strings it lists are observed at run
+    time: (1) a list/tuple of strings of the right length stored in the returned dict, else (2) the `str0` arguments of the
+    calls to `parse_simple_pauli` made while the generator runs (one per stabilizer circuit).  Independent of how the
+    source is spelled.  Returns (code, strings or None, how)."""
+    import numqi
+    Q = numqi.qec._qecc
+    recorded = []
+    orig = Q.parse_simple_pauli
+
+    def spy(str0, *a, **kw):
+        recorded.append(str0)
+        return orig(str0, *a, **kw)
+    Q.parse_simple_pauli = spy
+    pub = getattr(numqi.qec, 'parse_simple_pauli', None)
+    try:
+        if pub is orig:
+            numqi.qec.parse_simple_pauli = spy
+        code = gen()
+    finally:
+        Q.parse_simple_pauli = orig
+        if pub is orig:
+            numqi.qec.parse_simple_pauli = orig
+    ncirc = len(code['stabilizer'])
+    for k_, v in code.items():
+        if k_ not in ('name',) and isinstance(v, (list, tuple)) and len(v) == ncirc and ncirc > 0 and all(isinstance(x, str) for x in v):
+            return code, [str(x) for x in v], f'dict key {k_!r}'
+    if len(recorded) == ncirc and ncirc > 0 and all(isinstance(x, str) for x in recorded):
+        return code, list(recorded), 'parse_simple_pauli arguments'
+    return code, None, f'not recoverable ({len(recorded)} parse_simple_pauli calls for {ncirc} circuits)'
+
+
 def load_codes():
     """instantiate every shipped code from the tree under common.REPO; returns {lean_name: dict or None}"""
     import numqi
@@ -148,7 +180,7 @@ def load_codes():
     want = os.path.realpath(os.path.join(common.REPO, 'python', 'numqi'))
     if src != want:
         raise RuntimeError(f'numqi imported from {src}, expected {want}')
-    listed = listed_strings_from_source()
+    listed_ast = listed_strings_from_source()      # secondary cross-check only (its failure is a note)
     res = {}
     discovered, extras = discover_generators()
     CODES[:] = [(f, l) for f, (l, _) in PINNED.items()] + extras
@@ -156,11 +188,12 @@ def load_codes():
     for fname, lname in CODES:
         try:
             gen = get_generator(fname)
-            code = gen()
+            code, listed_rt, how = run_generator_recording(gen)
             enc = [classify_gate(g, idx) for g, idx in code['encode'].gate_index_list]
             stab = [[classify_gate(g, idx) for g, idx in c.gate_index_list] for c in code['stabilizer']]
             res[lname] = dict(fname=fname, lname=lname, name=str(code['name']), n=int(code['num_qubit']), K=int(code['num_logical_dim']),
-                              d=int(code['distance']), encode=enc, stab=stab, listed=listed.get(fname), live=code)
+                              d=int(code['distance']), encode=enc, stab=stab, listed=listed_rt, listed_how=how,
+                              listed_ast=listed_ast.get(fname), live=code)
             try:
                 res[lname]['second'] = fingerprint(gen())
             except Exception:
@@ -187,7 +220,7 @@ def listed_syms(strs, n):
 def render_lean(codes):
     L = ['/-',
          'GENERATED by harness/c19.py `translate` from the live `numqi.qec.generate_code*()` objects',
-         '(gate lists of `[\'encode\']` and `[\'stabilizer\']`, n/K/d) and the AST of `qec/_qecc.py` (listed Pauli strings).',
+         '(gate lists of `[\'encode\']` and `[\'stabilizer\']`, n/K/d, and the Pauli strings each generator hands to `parse_simple_pauli` while it runs).',
          'Do not edit: rewritten on every run of `bin/check C19`.',
          '-/',
          'import NumqiModel.Qec',
@@ -248,8 +281,12 @@ def translate(ctx):
     ctx.extra['translator'] = dict(codes=[c['name'] for c in cds if 'error' not in c], gates=ngates, unknown_gates=nunknown,
                                    constructor_errors=[c['fname'] for c in cds if 'error' in c],
                                    listed_missing=[c['fname'] for c in cds if 'error' not in c and c['listed'] is None],
+                                   listed_observed_by={c['fname']: c.get('listed_how') for c in cds if 'error' not in c},
                                    discovered=codes.get('__discovered__'), not_in_pinned_table=[f for f in codes.get('__discovered__', []) if f not in PINNED],
                                    pinned_missing=[f for f in PINNED if f not in codes.get('__discovered__', [])])
+    for c in cds:
+        if 'error' not in c and c.get('listed_ast') is not None and c.get('listed') is not None and c['listed_ast'] != c['listed']:
+            ctx.note(f'{c["fname"]}: the string list read from the AST of _qecc.py differs from the strings observed at run time (cross-check only)')
     if not ctx.quick():
         if THOROUGH_FILE not in THEOREM_FILES:
             THEOREM_FILES.append(THOROUGH_FILE)
@@ -532,7 +569,9 @@ def impl_op(op, codes):
     import numqi
     t = op.split(' ')
     k = t[1]
-    if k in ('cw', 'gens', 'fix', 'chk', 'ortho', 'kl', 'scirc', 'listed', 'wenum', 'wenumk', 'checks'):
+    if k == 'codes':
+        return ' '.join(f'{l}:{codes[l]["n"]}:{codes[l]["K"]}:{codes[l]["d"]}' for _, l in CODES if l in codes and 'error' not in codes[l])
+    if k in ('cw', 'gens', 'fix', 'chk', 'ortho', 'kl', 'klval', 'degmat', 'varqec', 'scirc', 'listed', 'wenum', 'wenumk', 'checks'):
         c = codes.get(t[2])
         if c is None or 'error' in c:
             return 'bad-op'
@@ -579,8 +618,48 @@ def impl_op(op, codes):
             return guarded(f)
         if k == 'kl':
             def f():
-                M, _ = kl_real(c)
+                M, errs = kl_real(c)
+                # the torch branch (_KnillLaflammeInnerProductTorchOp.forward) on the same code words must give the same array
+                import torch
+                Mt = numqi.qec.knill_laflamme_inner_product(torch.tensor(real_codewords(c)), errs).numpy()
+                if Mt.shape != M.shape or not np.array_equal(Mt, M):
+                    return 'torch-branch-differs:%g' % (np.abs(Mt - M).max() if Mt.shape == M.shape else -1)
                 return ''.join(kl_class(m) for m in M)
+            return guarded(f)
+        if k == 'degmat':
+            def f():
+                a = int(t[3])
+                captured = {}
+                orig = np.linalg.eigvalsh
+                def spy(M, *aa, **kw):
+                    captured['M'] = np.array(M, copy=True)
+                    return orig(M, *aa, **kw)
+                np.linalg.eigvalsh = spy
+                try:
+                    ev = numqi.qec.degeneracy(real_codewords(c)[a])
+                finally:
+                    np.linalg.eigvalsh = orig
+                M = captured['M'] * (2 ** h)
+                # the returned eigenvalues are those of the captured matrix (LAPACK contract, 1e-9)
+                if np.abs(np.sort(ev) - np.sort(orig(captured['M']))).max() > 1e-9:
+                    return 'eigenvalues-not-of-gram-matrix'
+                return f'{h} ' + ';'.join(','.join(gint_str(z).replace(',', '/') for z in row) for row in M)
+            return guarded(f)
+        if k == 'klval':
+            def f():
+                M, _ = kl_real(c)
+                sc = 2 ** h
+                return f'{h} ' + ';'.join(','.join(gint_str(z * sc).replace(',', '/') for z in m.reshape(-1)) for m in M)
+            return guarded(f)
+        if k == 'varqec':
+            def f():
+                K2 = int(t[3])
+                r = get_generator(c['fname'])()      # VarQEC shifts the circuit it is given in place: use a fresh one
+                model = numqi.qec.VarQEC(r['encode'], K2, numqi.qec.make_error_list(n, 2))
+                code = model.get_code()
+                if code.shape != (K2, 2 ** n):
+                    return f'shape:{code.shape}'
+                return f'{h} ' + '|'.join(scaled_amps(row, h) for row in code)
             return guarded(f)
         if k == 'scirc':
             def f():
@@ -634,6 +713,94 @@ def impl_op(op, codes):
     if k == 'asym':
         n, d, p, q = (int(x) for x in t[2:6])
         return guarded(lambda: ';'.join(sparse_to_str(n, e, gate_name) for e in numqi.qec.make_asymmetric_error_set(n, d, weight_z=p / q)))
+    if k == 'pqecc':
+        def f():
+            from fractions import Fraction
+            try:
+                r = numqi.qec.parse_str_qecc(t[2])
+            except (AssertionError, ValueError, IndexError):
+                return 'error'
+            w = r['weight_z']
+            ws = 'None' if w is None else (lambda fr: f'{fr.numerator}/{fr.denominator}')(Fraction(repr(float(w))))
+            return f"{r['num_qubit']} {r['num_logical_dim']} {ws} {r['distance']}"
+        return guarded(f)
+    if k == 'errlisto':
+        n, d = int(t[2]), int(t[3])
+        opl = [P2[ch] for ch in t[4]]
+        def f():
+            out = []
+            for e in numqi.qec.make_error_list(n, d, op_list=opl):
+                nm = lambda g: next((k_ for k_ in 'IXYZ' if np.array_equal(np.asarray(g).astype(np.complex128), P2[k_])), '?')
+                out.append(','.join(f'{int(ind[0])}{nm(g)}' for ind, g in e))
+            return ';'.join(out)
+        return guarded(f)
+    if k == 'extend':
+        ga, gb = parse_gates(t[2]), parse_gates(t[3])
+        def f():
+            A = build_circuit(ga) if ga else numqi.sim.Circuit()
+            B = build_circuit(gb) if gb else numqi.sim.Circuit()
+            A.extend_circuit(B)
+            out = [gate_tok(classify_gate(g, idx)) for g, idx in A.gate_index_list]
+            # the second circuit is unchanged and its gate objects are shared, not copied (documented: parameters re-used)
+            if [gate_tok(classify_gate(g, idx)) for g, idx in B.gate_index_list] != [gate_tok(g) for g in gb]:
+                return 'second-circuit-modified'
+            return ';'.join(out) if out else '-'
+        return guarded(f)
+    if k == 'ppauli':
+        str0 = '' if t[2] == '_' else t[2]
+        tag = t[3] == '1'
+        def f():
+            try:
+                r = numqi.qec.parse_simple_pauli(str0, tag_circuit=tag)
+            except KeyError:
+                return 'error:KeyError'
+            if tag:
+                toks = []
+                for g, idx in r.gate_index_list:
+                    cg = classify_gate(g, idx)
+                    if cg[0] not in ('x', 'y', 'z'):
+                        return 'non-pauli-gate'
+                    toks.append(f'{cg[1]}:{cg[0].upper()}')
+            else:
+                toks = [f'{int(q)}:{gate_name(g)}' for g, q in r]
+            return ';'.join(toks) if toks else '-'
+        return guarded(f)
+    if k == 'errfull':
+        n, d = int(t[2]), int(t[3])
+        def f():
+            out = []
+            for M in numqi.qec.make_error_list(n, d, tag_full=True):
+                M = np.asarray(M)
+                if M.shape != (2 ** n, 2 ** n):
+                    return f'shape:{M.shape}'
+                ch = []
+                for v in M.reshape(-1):
+                    key = (v.real, v.imag) if np.iscomplexobj(M) else (float(v), 0.0)
+                    ch.append({(0.0, 0.0): '.', (1.0, 0.0): '0', (0.0, 1.0): '1', (-1.0, 0.0): '2', (0.0, -1.0): '3'}.get(key, '?'))
+                out.append(''.join(ch))
+            return ';'.join(out)
+        return guarded(f)
+    if k == 'shift':
+        delta = int(t[2]); gates = parse_gates(t[3])
+        def f():
+            if not gates:
+                return '-'
+            circ = build_circuit(gates)
+            circ.shift_qubit_index_(delta)
+            out = []
+            for (g, idx), g0 in zip(circ.gate_index_list, gates):
+                if getattr(g, 'kind', None) == 'control':
+                    ctl, tgt = idx
+                    ids = [sorted(ctl)[0], tuple(tgt)[0]] if len(ctl) == 1 and len(tuple(tgt)) == 1 else None
+                else:
+                    ids = [tuple(idx)[0]] if len(tuple(idx)) == 1 else None
+                # classify by array with non-negative stand-in indices (classify_gate only looks at shapes), print the stored indices
+                cg = classify_gate(g, ({0}, (1,)) if getattr(g, 'kind', None) == 'control' else (0,))
+                if ids is None or cg[0] == 'unknown':
+                    return 'unknown'
+                out.append(','.join([cg[0]] + [str(int(x)) for x in ids]))
+            return ';'.join(out)
+        return guarded(f)
     if k == 'asymf':
         n, d, b = int(t[2]), int(t[3]), int(t[4])
         w = bits_to_float(b)
@@ -702,9 +869,16 @@ def gen_ops(ctx, codes):
             # the 11-qubit code in the quick tier: code words, check_stabilizer, Gram matrix, listed strings
             # (tableau / circuit-unitary / KL-table ops need 2048x2048 unitaries and 31 713 errors: thorough tier)
             ops += [f'C19 cw {lname} {a}' for a in range(c['K'])]
-            ops += [f'C19 chk {lname}', f'C19 ortho {lname}', f'C19 listed {lname}']
+            ops += [f'C19 chk {lname}', f'C19 ortho {lname}', f'C19 listed {lname}', f'C19 varqec {lname} {c["K"]}']
             continue
         ops += [f'C19 cw {lname} {a}' for a in range(c['K'])]
+        ops.append(f'C19 varqec {lname} {c["K"]}')
+        if c['K'] >= 4:
+            ops.append(f'C19 varqec {lname} 3')
+        if c['K'] ** 2 * 2 ** c['n'] * sum(1 for _ in all_errors(c['n'], c['d'])) <= (3e7 if quick else 4e8):
+            ops.append(f'C19 klval {lname}')
+        if c['n'] <= 8:
+            ops += [f'C19 degmat {lname} 0', f'C19 degmat {lname} {c["K"] - 1}']
         ops += [f'C19 gens {lname}', f'C19 fix {lname}', f'C19 chk {lname}', f'C19 ortho {lname}', f'C19 kl {lname}', f'C19 scirc {lname}',
                 f'C19 listed {lname}', f'C19 checks {lname}']
         if c['n'] <= 6 or (not quick and c['n'] <= 8 and c['K'] <= 8):
@@ -720,6 +894,36 @@ def gen_ops(ctx, codes):
             for p, q in ASYM_W:
                 ops.append(f'C19 asym {n} {d} {p} {q}')
     ops.append('C19 asym 3 2 0 1')
+    ops.append('C19 codes')
+    # parse_simple_pauli: both input forms, both output forms, malformed strings, I tokens, multi-digit and zero-padded indices
+    pp = ['XIYXX', 'IIII', '_', 'X', 'ZZ', 'XAZ', 'xyz', 'X0', 'X0Y2X3X4', 'I0', 'X0I1Z2', 'Z10X3', 'Y007', 'X0Y', '0X1', 'X', 'XX0', 'X0X0', 'X1Y1', 'X-1',
+          'Z12Y11X10', 'I5I6', 'XYZI0', 'X0YZ', 'X00', 'Y9Z8X7', 'X3Z1Y2']
+    for _ in range(20 if quick else 200):
+        m = ctx.rng.randint(1, 6)
+        if ctx.rng.random() < 0.5:
+            pp.append(''.join(ctx.rng.choice('XYZI') for _ in range(m)))
+        else:
+            pp.append(''.join(ctx.rng.choice('XYZI') + str(ctx.rng.choice([0, 1, 2, 5, 9, 10, 23, 100])) for _ in range(m)))
+    for w_ in pp:
+        ops += [f'C19 ppauli {w_} 1', f'C19 ppauli {w_} 0']
+    # make_error_list(tag_full=True): every dense matrix
+    for n, d in ([(1, 2), (2, 2), (2, 3), (3, 2), (3, 3), (3, 4), (4, 3), (5, 2), (2, 4), (1, 3)] + ([] if quick else [(4, 4), (5, 3), (6, 2)])) + [(2, 1)]:
+        ops.append(f'C19 errfull {n} {d}')
+    # shift_qubit_index_ on gate lists (negative deltas included), VarQEC.get_code for every code (and K not a power of two)
+    for _ in range(20 if quick else 200):
+        n = ctx.rng.randint(1, 6)
+        ops.append(f'C19 shift {ctx.rng.randint(-3, 6)} {gates_str(random_gates(ctx.rng, n, ctx.rng.randint(0, 8)))}')
+    ops += ['C19 shift 0 h,0;cx,0,1', 'C19 shift 3 cz,2,0;y,1', 'C19 shift -2 cx,5,2;s,4']
+    for _ in range(10 if quick else 100):
+        n = ctx.rng.randint(1, 5)
+        ops.append(f'C19 extend {gates_str(random_gates(ctx.rng, n, ctx.rng.randint(0, 5)))} {gates_str(random_gates(ctx.rng, n, ctx.rng.randint(0, 5)))}')
+    # parse_str_qecc: both name forms, malformed names
+    for nm in ['((5,2,3))', '((4,4,2))', '((10,4,4))', '((5,2,de(2)=3))', '((7,1,de(0.5)=4))', '((6,4,de(1.5)=2))', '((8,8,de(3)=3))', '((9,2,de(0.25)=5))',
+               '(5,2,3)', '((5,2,3)', '((5,2))', '((5,2,de(2)3))', '((5,2,de2=3))', '((a,2,3))', '((5,2,de(x)=3))', '((5,2,de(2)=))']:
+        ops.append(f'C19 pqecc {nm}')
+    # make_error_list with a custom op_list
+    for n, d, o in [(3, 3, 'XZ'), (4, 2, 'Z'), (3, 4, 'ZYX'), (2, 3, 'XX'), (5, 2, 'YX'), (3, 2, 'XYZ'), (2, 2, 'I')]:
+        ops.append(f'C19 errlisto {n} {d} {o}')
     # binary64 weights through the float model of int(np.ceil((d-nxy)/weight_z)): non-dyadic ones and two dyadic ones
     for w in NONDYADIC_W + [1.5, 0.5]:
         for n in range(1, (5 if quick else 6)):
@@ -904,9 +1108,11 @@ def probe_code(ctx, c, with_library_kl=True):
     listed = c['listed']
     circs = c['live']['stabilizer']
     if listed is None or len(listed) != len(circs) or not listed:
-        ctx.fail(f'{tag}:listed-missing', f'{name}: {0 if listed is None else len(listed)} listed strings for {len(circs)} stabilizer circuits',
-                 dict(code=name, op='listed', listed=listed, circuits=len(circs)))
-        listed = listed or []
+        # the translator could not observe the listed strings: a broken tie (the Lean obligation `listedCheck` is false for an
+        # empty list), NOT a failing input of the library; the circuits are still probed below
+        ctx.note(f'{name}: listed strings not recoverable at run time ({c.get("listed_how")}); AST cross-check: {c.get("listed_ast")}')
+        ctx.disagree(f'C19 translator-listed {tag}', 'listed strings of the generator could not be observed', str(c.get('listed_how')))
+        listed = []
     for j, s in enumerate(listed):
         if len(s) != n or not set(s) <= set('IXYZ'):
             ctx.fail(f'{tag}:listed-malformed', f'{name}: listed string {s!r} is not a {n}-qubit Pauli word', dict(code=name, op='listed', string=s))
@@ -1163,6 +1369,9 @@ def probe_history(ctx):
             want = numqi.qec.generate_code_np(r['encode'], c['K'])
             model = numqi.qec.VarQEC(r['encode'], c['K'], numqi.qec.make_error_list(c['n'], c['d']))
             loss = float(model())
+            r1 = get_generator(c['fname'])()
+            loss1 = float(numqi.qec.VarQEC(r1['encode'], c['K'], numqi.qec.make_error_list(c['n'], c['d']), loss_type='L1')())
+            loss = max(abs(loss), abs(loss1))
             got = model.get_code()
             if abs(loss) > 1e-12 or got.shape != want.shape or np.abs(got - want).max() > 1e-9:
                 ctx.fail(f'{lname}:varqec', f'{c["name"]}: VarQEC on the shipped encoder: loss {loss}, code words differ from generate_code_np by {np.abs(got - want).max() if got.shape == want.shape else "shape"}',
@@ -1415,6 +1624,18 @@ def probe_weight_enumerator(ctx, c):
         A, B = numqi.qec.quantum_weight_enumerator(code)
     except Exception as e:
         ctx.fail(f'{c["lname"]}:weight-enumerator', f'{name}: quantum_weight_enumerator raised {type(e).__name__}: {e}', dict(code=name, op='quantum_weight_enumerator')); return
+    if n <= 4:
+        # non-default option: the progress-bar branch (total from scipy.special.binom) must give the same arrays
+        try:
+            import contextlib, io
+            with contextlib.redirect_stderr(io.StringIO()):
+                A2, B2 = numqi.qec.quantum_weight_enumerator(code, use_tqdm=True)
+            if not (np.array_equal(A, A2) and np.array_equal(B, B2)):
+                ctx.fail(f'{c["lname"]}:weight-enumerator-tqdm', f'{name}: quantum_weight_enumerator(use_tqdm=True) differs from use_tqdm=False', dict(code=name, op='quantum_weight_enumerator', use_tqdm=True))
+            else:
+                ctx.probe_ok((c['lname'], 'wenum-tqdm'))
+        except Exception as e:
+            ctx.fail(f'{c["lname"]}:weight-enumerator-tqdm', f'{name}: quantum_weight_enumerator(use_tqdm=True) raised {type(e).__name__}: {e}', dict(code=name, op='quantum_weight_enumerator', use_tqdm=True))
     # sum rules (weights 1..n only, A_0 = B_0 = 1 left out by the implementation); tolerance: sums of <= 4^n terms of size <= 1, each exact to ~1e-15
     sa, sb = A.sum(), B.sum()
     wa, wb = 2 ** n / K - 1, 2 ** n * K - 1
